@@ -124,3 +124,27 @@ Definition ins_at {X} (k : nat) (x : X) (l : list X) : list X := firstn k l ++ x
 
 (* positions before and after the insertion point: k itself corresponds to both k and k+1 *)
 Definition ins_R (k : N) (p p' : N) : Prop := (p <= k /\ p' = p) \/ (k <= p /\ p' = p + 1).
+(* token starts: strictly before k, or from k on *)
+Definition ins_S (k : N) (q q' : N) : Prop := (q < k /\ q' = q) \/ (k <= q /\ q' = q + 1).
+
+(* the same parser with the LAYOUT sub-parser replaced by the ws parameter *)
+Definition with_ws (c : pconf) (ws : list N) : pconf :=
+  mkPConf (pc_g c) (pc_tb c) (pc_terms c) (pc_stop c) (pc_consume c) (pc_lexdis c) ws None.
+
+(* The canonical ws-equivalent LAYOUT rule of the documentation,
+     S: 'a' S | 'a';  LAYOUT: LayoutItem | LAYOUT LayoutItem | EMPTY;  LayoutItem: WS;
+     terminals WS: /[ \t\r\n]+/;
+   as the impl builds it (terminals WS=0 'a'=1 EMPTY=2 STOP=3; productions 3..6 are the
+   LAYOUT ones) and the table of its LAYOUT sub-parser exactly as dumped from the impl
+   (the check compares this constant with a fresh dump on every run). *)
+Definition g_std : grammar :=
+  [mkProd 0 [NT 1]; mkProd 1 [T 1; NT 1]; mkProd 1 [T 1];
+   mkProd 2 [NT 3]; mkProd 2 [NT 2; NT 3]; mkProd 2 []; mkProd 3 [T 0]].
+Definition ltb_std : table :=
+  [mkState (NT 0) [(0, [Shift 3%nat]); (3, [Reduce 5])] [(2, 1%nat); (3, 2%nat)] [false; false] [];
+   mkState (NT 2) [(0, [Shift 3%nat]); (3, [Accept])] [(3, 4%nat)] [false; false] [];
+   mkState (NT 3) [(0, [Reduce 3]); (3, [Reduce 3])] [] [false; false] [];
+   mkState (T 0) [(0, [Reduce 6]); (3, [Reduce 6])] [] [false; false] [];
+   mkState (NT 3) [(0, [Reduce 4]); (3, [Reduce 4])] [] [false; false] []].
+Definition terms_std : list term_info := [mkTerm 10 false; mkTerm 10 false; mkTerm 10 false; mkTerm 10 false].
+
